@@ -98,6 +98,7 @@ EXT_POOL = [
     "M106 S255", "M106 S0", "M107", "M117 Layer 3", "M117 printing X1 Y2", "M204 S500", "M204 P800 T1500",
     "M205 X8 Y8", "M205 J0.02", "M73 P25 R40", "M73 P50", "G4 P100", "G4 S1", "M900 K0.2", "T0",
     "M104 S210", "M140 S60", "M220 S100", "M221 S95", "M400", "G29", "M114", "M82.5",
+    "G10 P1 L2 X0.5", "G10 L2 P1 X0 Y0",      # tool / workspace offsets: not retractions (P or L present), passed through
 ]
 
 
